@@ -34,6 +34,21 @@ CHECKS = {
    text='Theorem C20_reads_monotone_linear (closed): for every graph, unroll factor >= 1, mode and input, the offsets read within one attempt never decrease, none precedes the attempt start, and #reads <= 3 * (offsets examined), independent of the graph. With C06_opt_is_ref the log belongs to the program that computes the reference semantics. The real read trace (hook in Lexer::read, next and trivia) of both generators equals the model log exactly on all probes, and the bound / monotonicity / restart-at-item-end are also checked directly on the real traces.',
    design='DESIGN.md sections 5.2, 7 (C20)',
    note='Trace equality is for unroll factor 8 (the value in generator/mod.rs). Callbacks are outside the property.'),
+ 'C05': dict(
+   technique='Coq proof of the index model (Source::read with checked_add; ordered read requests of the emitted program) + differential grid of the real read function and of default vs forbid_unsafe builds',
+   text='Theorems C05_read_spec, C05_requests_ordered (+ C06_opt_is_ref) (closed): read(offset) returns a chunk exactly when offset+size <= len without usize overflow and then holds those bytes; every read request of an attempt of the emitted per-state program lies at or after the attempt start and requests are ordered. Ties: the real Source::read (str and [u8], u8 and &[u8;N] chunks) against the model on a grid incl. offsets near 2^64, in four builds; the real read requests (hook) equal the model log on all probes; default vs forbid_unsafe builds (debug and release) give identical results without panic on all probes (exact-size heap inputs).',
+   design='DESIGN.md sections 7 (C05), 10',
+   note='PARTIAL by nature: machine-level memory safety of the unsafe pointer reads is modelled as index bounds and observed offsets; no sanitizer result is claimed.'),
+ 'C13': dict(
+   technique='Coq proof by exhaustive case analysis of the return-value dispatch + structural lemmas of the lexing loop + differential run with recording callbacks',
+   text='Theorems C13_construct_matches_table (every CallbackRetVal/SkipRetVal impl and value shape maps to the documented outcome), C13_decision_determines_item, C13_skip_transparent, C13_bump_extends_and_excludes (closed). Compiled definitions with one callback per impl (14+4), any-token callbacks, an error callback and a bumping callback are run under both generators; per next() the result, chosen variant, error value, span and the log of callback invocations (count, observed span and slice) are compared with the model.',
+   design='DESIGN.md section 7 (C13)',
+   note='construct is a hand mirror of src/internal.rs (29 value shapes); its tie to the code is the compiled corpus. Callbacks are modelled as an oracle (decision, bump).'),
+ 'C15': dict(
+   technique='Coq proof of bump_spec on the model of Lexer::bump (usize wrap-around explicit) + refutation lemmas for the pre-fix code + differential grid in debug and release',
+   text='Theorems C15_bump_spec, C15_never_invalid (closed): bump succeeds iff end+n does not overflow and is an in-range boundary, otherwise panics leaving the position unchanged; a valid position stays valid. C15_old_release_refuted / C15_old_panic_corrupts: the code as it was is refuted by vm_compute witnesses (finding F3, fixed). Real bump under catch_unwind on every position of small str/byte sources x n incl. values that wrap onto every in-range position, in debug/release x default/forbid_unsafe builds, against the model evaluated in coqc.',
+   design='DESIGN.md sections 7 (C15), 9 (F3)',
+   note='The model of bump is hand-written (8 lines) and tied by the grid; slice() is only called on states the spec calls valid (no sanitizer).'),
 }
 
 def main():
